@@ -663,13 +663,14 @@ def _whitespace_paths(ctx, mod, f):
     PS = tokname + '.pre_space'
 
     class St(object):
-        __slots__ = ('consumed', 'falsy', 'rewind', 'facts')
+        __slots__ = ('consumed', 'falsy', 'rewind', 'facts', 'rexpr')
 
-        def __init__(self, consumed=0, falsy=False, rewind=None, facts=()):
+        def __init__(self, consumed=0, falsy=False, rewind=None, facts=(), rexpr=None):
             self.consumed, self.falsy, self.rewind, self.facts = consumed, falsy, rewind, tuple(facts)
+            self.rexpr = rexpr       # defining expression of the rewind flag when it is not a literal
 
         def copy(self):
-            return St(self.consumed, self.falsy, self.rewind, self.facts)
+            return St(self.consumed, self.falsy, self.rewind, self.facts, self.rexpr)
 
     exits = []
 
@@ -699,9 +700,18 @@ def _whitespace_paths(ctx, mod, f):
         if isinstance(stmt, ast.AugAssign) and unparse(stmt.target) == 'self._pending_chars' and \
                 unparse(stmt.value) == PS:
             st.consumed += 1
-        if isinstance(stmt, ast.Assign) and unparse(stmt.targets[0]) == 'rewind_pre_space' and \
-                isinstance(stmt.value, ast.Constant):
-            st.rewind = bool(stmt.value.value)
+        if isinstance(stmt, ast.Assign) and unparse(stmt.targets[0]) == 'rewind_pre_space':
+            if isinstance(stmt.value, ast.Constant):
+                st.rewind, st.rexpr = bool(stmt.value.value), None
+            else:
+                # flag computed from a condition: its value is learnt from the branch decisions
+                st.rewind, st.rexpr = None, unparse(stmt.value)
+                neg = st.rexpr[4:] if st.rexpr.startswith('not ') else 'not ' + st.rexpr
+                for t_, pol in st.facts:
+                    if t_ == st.rexpr:
+                        st.rewind = pol
+                    elif t_ == neg:
+                        st.rewind = not pol
 
     def walk(stmts, states):
         for s in stmts:
@@ -716,6 +726,13 @@ def _whitespace_paths(ctx, mod, f):
                         b.falsy = True
                     a.facts += ((t, True),)
                     b.facts += ((t, False),)
+                    if st.rewind is None:
+                        rx = st.rexpr
+                        negrx = (rx[4:] if rx.startswith('not ') else 'not ' + rx) if rx else None
+                        if t in ('rewind_pre_space', rx):
+                            a.rewind, b.rewind = True, False
+                        elif t in ('not rewind_pre_space', negrx):
+                            a.rewind, b.rewind = False, True
                     tstates.append(a)
                     fstates.append(b)
                 out = walk(s.body, tstates)
